@@ -128,11 +128,13 @@ where
         input.error_buffer.push(spl_error);
     }
 
-    move |input: TokenStream<'a>| match parser.parse(this, input) {
+    move |input: TokenStream<'a>| match parser.parse(this, input.clone()) {
         Ok((input, out)) => Ok((input, Some(out))),
+        // re-parse from scratch at the original position,
+        // the failed attempt may already have advanced its input
         Err(nom::Err::Error(ParserError {
             kind: ParserErrorKind::Affected,
-            input,
+            ..
         })) => match parser.parse(None, input) {
             Ok((input, out)) => Ok((input, Some(out))),
             Err(nom::Err::Error(mut err)) => {
